@@ -73,7 +73,9 @@ structure St where
 deriving Repr, DecidableEq, Inhabited
 
 inductive Label where
-  | connectCmdOk (serverSubs : Nat)
+  /-- `connectCmd` succeeded (`addClient` done); connect-time server-side subscriptions are
+  `subscribe` steps taken before `triggerAcquire` -/
+  | connectCmdOk
   | triggerAcquire | triggerEnd
   | subscribe
   | closeTry
@@ -89,13 +91,9 @@ def connectMuFree (s : St) : Bool :=
 def presenceMuFree (s : St) : Bool :=
   s.tick == .none && (match s.w with | .holdBoth _ _ _ => false | .inDisc => false | _ => true)
 
-def freshSubs (start n : Nat) : List Nat := (List.range n).map (· + start)
-
 def step (s : St) : Label → Option St
-  | .connectCmdOk k =>
-    if s.cpc = .idle && s.status != .closed then
-      some { s with cpc := .ready, inHub := true, subs := s.subs ++ freshSubs s.nextSub k, nextSub := s.nextSub + k }
-    else none
+  | .connectCmdOk =>
+    if s.cpc = .idle && s.status != .closed then some { s with cpc := .ready, inHub := true } else none
   | .triggerAcquire =>
     if s.cpc = .ready && connectMuFree s then
       if s.status = .connecting then
